@@ -206,7 +206,7 @@ impl ChannelManager {
 
     // Ensure the channel is local.
     if channel_id.domain != router.c2s_router().local_domain() {
-      return Err(narwhal_protocol::Error::new(NotImplemented).into());
+      return Err(narwhal_protocol::Error::new(NotImplemented).with_id(correlation_id).into());
     }
 
     // Check if the channel exists and if the originating connection is a member of it.
